@@ -556,57 +556,71 @@ def run(tier="quick"):
     # (the expansion copies into an uninitialised stack buffer and counts on the callee for the NUL, also when one byte is left)
     prog_s = facts.extract(only=["strings.c"])
     sc = prog_s.need("spiftool_safe_strncpy")
-    scfg = nullness.prepared_cfg(sc, NORETURN)
-    dd, szd = sc.params[0]["d"], sc.params[2]["d"]
-    rooted = {dd}
-    changed_ = True
-    while changed_:
-        changed_ = False
-        for d_, v_ in sc.vardecls.items():
-            if d_ not in rooted and v_.get("init") is not None and any(y.get("k") == "ref" and y.get("d") in rooted for y in walk(v_["init"])):
-                rooted.add(d_)
-                changed_ = True
-        for x in walk(sc.body):
-            if x.get("k") == "assign" and x.get("op") == "=":
-                l_ = X.strip(x["ch"][0])
-                if l_.get("k") == "ref" and l_.get("d") not in rooted and any(y.get("k") == "ref" and y.get("d") in rooted for y in walk(x["ch"][1])):
-                    rooted.add(l_["d"])
+
+    def v9_returns(fn_, dd, szd, nn_params, depth=0):
+        """[(return node, a terminator was stored through the pointer parameter dd - or size < 1 is known - on every path to it)]"""
+        cfg_ = nullness.prepared_cfg(fn_, NORETURN)
+        rooted = {dd}
+        changed_ = True
+        while changed_:
+            changed_ = False
+            for d_, v_ in fn_.vardecls.items():
+                if d_ not in rooted and v_.get("init") is not None and any(y.get("k") == "ref" and y.get("d") in rooted for y in walk(v_["init"])):
+                    rooted.add(d_)
                     changed_ = True
+            for x in walk(fn_.body):
+                if x.get("k") == "assign" and x.get("op") == "=":
+                    l_ = X.strip(x["ch"][0])
+                    if l_.get("k") == "ref" and l_.get("d") not in rooted and any(y.get("k") == "ref" and y.get("d") in rooted for y in walk(x["ch"][1])):
+                        rooted.add(l_["d"])
+                        changed_ = True
 
-    def v9_transfer(st, n, blk):
-        st = nullness.transfer(st, n, blk)
-        if n.get("k") == "assign" and n.get("op") == "=" and X.const_val(n["ch"][1]) == 0:
-            l_ = X.strip(n["ch"][0])
-            if l_.get("k") in ("un", "index") and (l_.get("op") == "*" or l_.get("k") == "index") and any(
-                    y.get("k") == "ref" and y.get("d") in rooted for y in walk(l_["ch"][0])):
-                return st | {("term",)}
-        return st
+        def transfer(st, n, blk):
+            st = nullness.transfer(st, n, blk)
+            if n.get("k") == "assign" and n.get("op") == "=" and X.const_val(n["ch"][1]) == 0:
+                l_ = X.strip(n["ch"][0])
+                if l_.get("k") in ("un", "index") and (l_.get("op") == "*" or l_.get("k") == "index") and any(
+                        y.get("k") == "ref" and y.get("d") in rooted for y in walk(l_["ch"][0])):
+                    return st | {("term",)}
+            if n.get("k") == "call" and depth < 3:
+                # a worker of the same file that is handed the destination and terminates it on every one of its returns
+                g_ = fn_.unit.functions.get(X.callee_name(n) or "")
+                if g_ is not None and g_.body is not None and g_ is not fn_ and len(g_.params) == len(n["ch"]) - 1:
+                    for j_, a_ in enumerate(n["ch"][1:]):
+                        sa_ = X.strip(a_)
+                        if g_.params[j_].get("tp") and sa_ is not None and any(y.get("k") == "ref" and y.get("d") in rooted for y in walk(sa_)) \
+                                and not (sa_.get("k") == "un" and sa_.get("op") == "&"):
+                            rs_ = v9_returns(g_, g_.params[j_]["d"], None, [], depth + 1)
+                            if rs_ and all(ok_ for _, ok_ in rs_):
+                                return st | {("term",)}
+            return st
 
-    def v9_refine(st, cond, truth, blk):
-        st2 = nullness.refine(st, cond, truth, blk)
-        if st2 is None or isinstance(truth, tuple):
-            return st2
-        for f_ in X.implied(cond, truth):
-            if f_[0] == "cmp":
-                op_, a_, b_ = f_[1], f_[2], f_[3]
-                ub = None
-                try:
-                    if a_ == "d%d" % szd and op_ in ("<", "<="):
-                        ub = int(b_) - (1 if op_ == "<" else 0)
-                    if b_ == "d%d" % szd and op_ in (">", ">="):
-                        ub = int(a_) - (1 if op_ == ">" else 0)
-                except ValueError:
+        def refine(st, cond, truth, blk):
+            st2 = nullness.refine(st, cond, truth, blk)
+            if st2 is None or isinstance(truth, tuple) or szd is None:
+                return st2
+            for f_ in X.implied(cond, truth):
+                if f_[0] == "cmp":
+                    op_, a_, b_ = f_[1], f_[2], f_[3]
                     ub = None
-                if ub is not None and ub <= 0:
-                    st2 = st2 | {("nosize",)}
-        return st2
-    v9_rets = []
+                    try:
+                        if a_ == "d%d" % szd and op_ in ("<", "<="):
+                            ub = int(b_) - (1 if op_ == "<" else 0)
+                        if b_ == "d%d" % szd and op_ in (">", ">="):
+                            ub = int(a_) - (1 if op_ == ">" else 0)
+                    except ValueError:
+                        ub = None
+                    if ub is not None and ub <= 0:
+                        st2 = st2 | {("nosize",)}
+            return st2
+        rets = []
 
-    def v9_visit(st, n, blk):
-        if n.get("k") == "return":
-            v9_rets.append((n, ("term",) in st or ("nosize",) in st))
-    seed9 = frozenset({("nn", "d%d" % dd), ("nn", "d%d" % sc.params[1]["d"])})
-    flow.forward(scfg, seed9, v9_transfer, refine=v9_refine, visit=v9_visit)
+        def visit(st, n, blk):
+            if n.get("k") == "return":
+                rets.append((n, ("term",) in st or ("nosize",) in st))
+        flow.forward(cfg_, frozenset(("nn", "d%d" % d_) for d_ in nn_params), transfer, refine=refine, visit=visit)
+        return rets
+    v9_rets = v9_returns(sc, sc.params[0]["d"], sc.params[2]["d"], [sc.params[0]["d"], sc.params[1]["d"]])
     bad9 = [r for r in v9_rets if not r[1]]
     chk.ob("V9", sc.name, "terminates-what-it-wrote", bool(v9_rets) and not bad9, loc=sc.loc(bad9[0][0]) if bad9 else sc.loc(sc.body),
            detail="%s returns on a path with valid strings and size >= 1 without having stored a terminator through dest: the caller's "
